@@ -512,6 +512,31 @@ class C05(Base):
                 rep.clauses["ascending"] += 1
                 if any(not b > a for a, b in zip(ids, ids[1:])):
                     rep.add([O.V("ascending", f"best mode QryContigID order {ids}", "ascending")], k)
+            # identical molecules under two ids: if one has a record in a one-per-query file, so has the other, and the two
+            # records agree in everything but the id (the statement: every query that has any alignment gets a record)
+            qmaps = {q["id"]: q for q in case["filesets"][ex.get("fileset", "base")]["queries"]}
+            pats = collections.defaultdict(list)
+            for q in qmaps.values():
+                pats[(tuple(round(p_ - q["pos"][0], 1) for p_ in q["pos"]))].append(q["id"])
+            for ids_ in pats.values():
+                if len(ids_) < 2:
+                    continue
+                for n in one_per_query:
+                    recs_n = {int(r["QryContigID"]): r for r in parsed.get(n, {"records": []})["records"]}
+                    a_id, b_id = sorted(ids_)[:2]
+                    ra, rb = recs_n.get(a_id), recs_n.get(b_id)
+                    rep.clauses["clone"] += 1
+                    if (ra is None) != (rb is None):
+                        have = ra or rb
+                        rep.add([O.V("clone", f"{mode}:{n}: molecules {a_id} and {b_id} have identical labels, but only "
+                                              f"{have['QryContigID']} has a record", f"clone|missing|{mode}", record=have["line"])], k)
+                    elif ra is not None:
+                        ka = [x for x in fmt.record_key(ra) if x[0] != "QryContigID"]
+                        kb = [x for x in fmt.record_key(rb) if x[0] != "QryContigID"]
+                        if ka != kb:
+                            rep.add([O.V("clone", f"{mode}:{n}: molecules {a_id} and {b_id} have identical labels but different "
+                                                  f"records", f"clone|differ|{mode}", record=ra["line"], other=rb["line"])], k)
+                        rep.probes["clone_pairs_with_records"] += 1
             for n, p in parsed.items():
                 ids = [int(r["QryContigID"]) for r in p["records"]]
                 if any(not b > a for a, b in zip(ids, ids[1:])):
